@@ -16,7 +16,7 @@ R-C17-5  (syntax) class members: none is dropped or replaced (map keys are uniqu
          (position, original index).
 """
 import re
-from .common import walk, src, strip, AnchorError, pat_alternatives, tail_expr
+from .common import walk, src, strip, AnchorError, pat_alternatives, tail_expr, walk_no_closure
 from .printer import PrinterModel
 from .c08 import _arm
 from .c13 import _chains_from
@@ -223,6 +223,7 @@ def run(chk, facts):
             for ch in _chains_from(l["init"], "parents"):
                 bad += [m for m in ch if m not in ORDER_OK and m not in ("append",)]
         chk.ob("R-C17-4", "parent-calls-in-order", bool(pi) and not bad, "parent constructor calls are emitted in declaration order" if pi and not bad else f"parent constructor calls are derived through {bad}", loc_i)
+        init_emitted(chk, facts, "R-C17-4")
     except AnchorError as e:
         chk.anchor_fail("R-C17-4", e)
 
@@ -324,3 +325,26 @@ def _derivation(fn, target, source):
                     go(m["p"])
     go(target)
     return meths, reached[0]
+
+
+def init_emitted(chk, facts, rule):
+    """the synthesised constructor is left out only when it would be empty: `init` has no early `return`, and yields None exactly
+    in the else-branch of `if !statements.is_empty()`. (Python's inherited constructor runs the first parent's `__init__` only, and
+    emitted constructors never call super(): eliding a constructor that "only forwards self" changes what a class with two parents does.)"""
+    syn = facts.syn
+    try:
+        f = syn.one_fn("init", mod="generate::convert::class")
+        loc = facts.loc_of(f)
+        rets = [n for n in walk_no_closure(f["body"]) if n.get("k") == "return"]
+        ok = not rets
+        chk.ob(rule, "init:no-early-return", ok, "init has no early return" if ok else
+               f"init returns early (`{src(rets[0])[:70]}`): the constructor can be left out although parent constructors would have to be called", loc)
+        t = strip(tail_expr(f["body"]) or {})
+        arg = strip(t["args"][0]) if t.get("k") == "call" and src(t["f"]) == "Ok" and t["args"] else {}
+        ok = arg.get("k") == "if" and src(strip(arg["c"])).replace(" ", "") in ("!statements.is_empty()", "(!statements.is_empty())") and \
+            any(n.get("k") == "call" and src(n["f"]) == "Some" and n["args"] and strip(n["args"][0]).get("k") == "struct" and strip(n["args"][0])["p"] == "Core::FunDef"
+                for n in walk(arg["then"])) and src(strip(arg["else"])).replace(" ", "") in ("None", "{None}")
+        chk.ob(rule, "init:none-iff-empty", ok, "no constructor is emitted exactly when it would have no statements" if ok else
+               "init no longer yields None exactly when the list of constructor statements is empty", loc)
+    except AnchorError as e:
+        chk.anchor_fail(rule, e)
